@@ -58,6 +58,10 @@ def r1_chain(cx):
     gb = F.body(g)
     it = gb.calls(r"<&std::vec::Vec<.*> as std::iter::IntoIterator>::into_iter$")
     nx = gb.calls(r"slice::Iter<.*> as std::iter::Iterator>::next$")
+    if not it or not nx:
+        # the same forward walk with the position attached: `self.0.iter().enumerate()`
+        nx = [(i, t) for i, t in gb.calls(r"Iterator>::next$") if "Enumerate<std::slice::Iter<" in callee_str(t)]
+        it = [(i, t) for i, t in gb.calls(r"IntoIterator>::into_iter$") if ("field", "0") in gb.origins(t["args"][0])][:1]
     vloc = gb.calls(r"PackLocatorTrait>::locate$")
     adapters = [callee_str(t) for i, t in gb.calls(r"::(rev|skip|take|filter|step_by|skip_while|take_while)(::<.*>)?$")]
     ok = len(it) == 1 and len(nx) == 1 and len(vloc) == 1 and not adapters
@@ -460,7 +464,26 @@ def r9_tail_pack_may_fill_the_file(cx):
               "the declared size of a pack found through its tail is accepted up to and including reader.size() itself (accepts equal/smaller and rejects larger: %s; bound from Reader::size: %s; arithmetic on the bound: %s %s)" % (verdict, from_size, arith, consts), ln=t.get("ln"))
 
 
+def r10_packs_are_looked_for_next_to_the_file_given(cx):
+    """'then through their recorded location': a recorded location is relative to the directory of the file that was
+    opened -- the path the caller gave, as given. `Container::new` hands `path.parent()` to the file locator and does not
+    resolve the path first (`canonicalize`, `read_link`): a container opened through a symbolic link would otherwise look
+    for its other packs next to the link's target."""
+    F = cx.F
+    f = F.one(impl_self="reader::jubako::Container", item="new", closure=False, trait="")
+    b = F.body(f)
+    fl = b.calls(r"locator::FsLocator::new$")
+    if len(fl) != 1:
+        raise AnchorLost("Container::new: %d FsLocator::new" % len(fl))
+    o = b.origins(fl[0][1]["args"][0])
+    resolved = sorted({callee_str(b.term(x[1])).split("::")[-1] for x in o if x[0] == "call" and call_is(b.term(x[1]), r"canonicalize$", r"read_link$", r"fs::", r"env::current_dir$", r"absolute$")})
+    parent = any(x[0] == "call" and call_is(b.term(x[1]), r"Path::parent$") for x in o)
+    cx.ob("R10", "R10/Container.new/base-directory-is-the-parent-of-the-path-given", parent and ("param", 1) in o and not resolved, f,
+          "FsLocator::new receives path.parent() of the path given (from Path::parent: %s), not a resolved path (resolving calls: %s)" % (parent, resolved), ln=fl[0][1].get("ln"))
+
+
 RULES = [
+    ("R10", r10_packs_are_looked_for_next_to_the_file_given, 1),
     ("R9", r9_tail_pack_may_fill_the_file, 1),
     ("R8", r8_recorded_locations_are_relative, 3),
     ("R7", r7_manifest_search_is_order_independent, 2),
